@@ -52,7 +52,8 @@ Seeds ==
          {<<x, y>> : x \in {NewArgs("align", NUCLEOTIDS, p, <<>>) : p \in {0, 1, 2}}
                           \cup {NewArgs("align", NUCLEOTIDS, p, <<Row(nA, <<65, 67>>), Row(nB, <<65, 67>>)>>) : p \in {0, 1, 2}}
                           \cup {NewArgs("bag", NUCLEOTIDS, p, <<Row(nA, <<65>>), Row(nC, <<65, 67, 97>>)>>) : p \in {0, 2}}
-                          \cup {NewArgs("align", NUCLEOTIDS, 0, <<Row(<<32, 98, 46, 46, 99>>, <<65, 84, 71, 45, 45, 45>>), Row(nA, <<97, 116, 103, 78, 78, 78>>)>>)},
+                          \cup {NewArgs("align", NUCLEOTIDS, 0, <<Row(<<32, 98, 46, 46, 99>>, <<65, 84, 71, 45, 45, 45>>), Row(nA, <<97, 116, 103, 78, 78, 78>>)>>),
+                                NewArgs("align", NUCLEOTIDS, 0, <<Row(nA, <<65, 67, 65, 45, 65>>), Row(nB, <<65, 84, 65, 45, 67>>)>>)},
                     y \in {NewArgs("align", NUCLEOTIDS, 0, <<Row(nB, <<71, 71>>), Row(nC, <<45, 84>>)>>),
                            NewArgs("align", NUCLEOTIDS, 0, <<>>)}}
     [] Profile = "C04" ->
@@ -110,11 +111,12 @@ Seeds ==
                       \cup Aligns(<<nA, nB>>, {65, 67}, 4, NUCLEOTIDS, 0)
                       \cup Aligns(<<nA, nB, nC, nZ>>, {88, 45}, 2, AMINOACIDS, 0)
                       \cup Aligns(<<nA>>, {65, 67}, 3, NUCLEOTIDS, 0)
+                      \cup Aligns(<<nA, nB, nC>>, {65, 74}, 2, UNKNOWN, 0)
                       \cup {NewArgs("bag", NUCLEOTIDS, 0, <<Row(nA, <<65>>), Row(nB, <<65, 67>>), Row(nC, <<65>>), Row(nZ, <<65, 67>>)>>),
                              NewArgs("bag", NUCLEOTIDS, 0, <<Row(nA, <<65, 78>>), Row(nB, <<65, 45>>), Row(nC, <<65>>), Row(nZ, <<>>)>>)}}
     [] Profile = "C14" ->
          LET R6 == <<65, 67, 97, 78, 45, 46>>
-             hs == IF Scope = "full" THEN {2, 3, 4} ELSE {2, 3}
+             hs == {2, 3}
              cols(h, al) == NewArgs("align", al, 0, [r \in 1..h |->
                                    Row(<<114, ZERO + r>>, [c \in 1..Pow(6, h) |-> R6[(((c - 1) \div Pow(6, h - r)) % 6) + 1]])])
              prof == NewArgs("align", NUCLEOTIDS, 0, <<Row(nA, <<65, 45, 67>>), Row(nB, <<65, 45, 45>>)>>)
@@ -135,10 +137,17 @@ Seeds ==
             \cup {<<NewArgs("align", NUCLEOTIDS, 0, <<Row(<<114, 49>>, <<65, 46, 45>>), Row(<<114, 50>>, <<46, 46, 67>>)>>), other>>}
             \cup (IF Scope = "full" THEN {<<x, other>> : x \in Aligns(<<<<114, 49>>, <<114, 50>>, <<114, 51>>>>, {65, 67, 45}, 1, NUCLEOTIDS, 0)} ELSE {})
     [] Profile = "C19" ->
-         {<<NewArgs("align", NUCLEOTIDS, 0, <<Row(nA, <<65, 67, 71, 84>>), Row(nB, <<65, 45, 71, 78>>), Row(nC, <<84, 84, 97, 45>>)>>),
+         {<<NewArgs("align", NUCLEOTIDS, 0, <<Row(<<97, 32, 98>>, <<65, 67, 71, 84>>), Row(<<99, 46, 100, 58, 49>>, <<65, 45, 71, 78>>), Row(<<40, 101, 41>>, <<84, 84, 97, 45>>)>>),
+            NewArgs("bag", NUCLEOTIDS, 0, <<Row(nA, <<65, 84, 71, 45, 67>>), Row(nB, <<71>>)>>)>>,
+          <<NewArgs("align", NUCLEOTIDS, 0, <<Row(nA, <<67, 67, 65, 84, 71, 65, 65, 65, 67, 67, 67, 84, 65, 65, 71, 71>>), Row(nB, <<65, 84, 71, 65, 65, 71, 67, 67, 67, 84, 65, 65, 71, 71, 71, 71>>)>>),
+            NewArgs("bag", NUCLEOTIDS, 0, <<Row(nZ, <<65, 84, 71, 65, 65, 65, 67, 67, 67, 84, 65, 65>>)>>)>>,
+          <<NewArgs("align", NUCLEOTIDS, 0, <<Row(nA, <<65, 67, 71, 84>>), Row(nB, <<65, 45, 71, 78>>), Row(nC, <<84, 84, 97, 45>>)>>),
             NewArgs("bag", NUCLEOTIDS, 0, <<Row(nA, <<65, 84, 71, 45, 67>>), Row(nB, <<71>>)>>)>>,
           <<NewArgs("align", AMINOACIDS, 0, <<Row(nA, <<77, 75, 45>>), Row(nB, <<77, 81, 88>>)>>),
             NewArgs("align", NUCLEOTIDS, 0, <<Row(nC, <<65, 84, 71>>)>>)>>}
+    [] Profile = "C04b" ->
+         {<<NewArgs("align", NUCLEOTIDS, 0, <<Row(nA, <<65, 67, 71, 84, 65>>), Row(nB, <<67, 45, 84, 65, 71>>)>>),
+            NewArgs("align", NUCLEOTIDS, 0, <<Row(nA, <<110, 110>>), Row(nB, <<121, 121>>)>>)>>}
     [] Profile = "C10" ->
          {<<NewArgs("align", NUCLEOTIDS, 0, <<Row(nA, <<65, 67, 71, 84>>), Row(nB, <<67, 45, 84, 65>>), Row(nC, <<71, 84, 46, 67>>)>>),
             NewArgs("align", AMINOACIDS, 0, <<Row(nA, <<65, 42>>), Row(nB, <<81, 45>>)>>)>>,
@@ -181,6 +190,11 @@ InstC01(h) ==
     \cup {Inst("Sample", r, [nb |-> k, seed |-> 3]) : k \in {0, 1, Len(h[r].rows), Len(h[r].rows) + 1} \cap (IF IsAlign(h[r]) THEN 0..9 ELSE {})}
     \cup (IF IsAlign(h[r])
           THEN {Inst("Clone", r, NoArg), Inst("RemoveGapSeqs", r, [p |-> 1, q |-> 2, ins |-> FALSE])}
+               \* (cleaning an alignment without rows is outside every property's quantifier)
+               \cup (IF Len(h[r].rows) = 0 THEN {} ELSE
+                     {Inst("RemoveMajorityCharacterSites", r, [p |-> 3, q |-> 4, ends |-> e, igaps |-> FALSE, ins |-> FALSE]) : e \in Bools}
+                     \cup {Inst("RemoveCharacterSites", r, [chars |-> <<65>>, p |-> 1, q |-> 1, ends |-> e, icase |-> FALSE, igaps |-> FALSE, ins |-> FALSE, rev |-> FALSE]) : e \in Bools}
+                     \cup {Inst("RemoveGapSites", r, [p |-> 1, q |-> 2, ends |-> e]) : e \in Bools})
                \cup {Inst("ReplaceChar", r, [name |-> n, site |-> s, c |-> 71]) : n \in {nA, nZ}, s \in {-1, 0, L(h[r])}}
                \cup {Inst("Append", r, [other |-> x]) : x \in AlignIds(h) \ {r}}
                \cup {Inst("Concat", r, [other |-> x]) : x \in AlignIds(h) \ {r}}
@@ -260,7 +274,7 @@ InstC15(h) ==
   \cup {Inst("MaskOccurences", r, [ref |-> rf, max |-> m, repl |-> rp]) : rf \in refs, m \in 0..(Len(o.rows) + 1), rp \in repls}
   \cup {Inst("MaskUnique", r, [ref |-> rf, repl |-> rp]) : rf \in refs, rp \in repls}
 \* C19: a copy-producing or read-only operation, then a mutation of any live object (original or copy)
-Queries == {"fasta", "phylip", "nexus", "clustal", "stockholm", "paml", "dist", "protdist", "sw", "swatg", "orf", "string"}
+Queries == {"fasta", "phylip", "nexus", "clustal", "stockholm", "paml", "dist", "protdist", "sw", "swatg", "orf", "string", "phaseref", "phasentref"}
 InstC19(h) ==
   IF Len(hist) = 2 THEN
     UNION {
@@ -270,7 +284,7 @@ InstC19(h) ==
               \cup {Inst("SubAlign", r, [start |-> s, len |-> n]) : s \in 0..L(h[r]), n \in 0..L(h[r])}
               \cup {Inst("SelectSites", r, [sites |-> ss]) : ss \in {[i \in 1..L(h[r]) |-> i - 1], <<0>>, <<L(h[r]) - 1, 0>>, <<>>}}
               \cup {Inst("Split", r, [plen |-> L(h[r]), ranges |-> <<Rg(0, 0, 0, 1), Rg(1, 1, L(h[r]) - 1, 1)>>, text |-> FALSE])}
-              \cup {Inst("Query", r, [q |-> q]) : q \in Queries}
+              \cup {Inst("Query", r, [q |-> q, other |-> IF r = 1 THEN 2 ELSE 1]) : q \in Queries}
               \cup {Inst("CharStats", r, NoArg), Inst("CountDifferences", r, NoArg), Inst("Entropy", r, [site |-> 0, rmgaps |-> TRUE]),
                     Inst("InversePositions", r, [sites |-> <<0>>]), Inst("RefSites", r, [name |-> nA, sites |-> <<0>>])}
             ELSE {})
@@ -279,6 +293,7 @@ InstC19(h) ==
     UNION {
       {Inst("SetSequenceChar", r, [i |-> 0, j |-> 0, c |-> 103]), Inst("ToLower", r, NoArg), Inst("Rename", r, [map |-> <<[f |-> nA, t |-> nZ]>>]),
        Inst("Replace", r, [old |-> <<65>>, new |-> <<71>>])}
+      \cup (IF IsAlign(h[r]) THEN {Inst("Concat", r, [other |-> x]) : x \in AlignIds(h) \ {r}} ELSE {})
       \cup (IF IsAlign(h[r]) THEN {Inst("ReplaceChar", r, [name |-> nA, site |-> L(h[r]) - 1, c |-> 99]), Inst("ReverseComplement", r, NoArg),
                                    Inst("Mask", r, [ref |-> <<>>, start |-> 0, len |-> 9, repl |-> <<90>>, nogap |-> FALSE, noref |-> FALSE]),
                                    Inst("DiffWithFirst", r, NoArg), Inst("TrimSequences", r, [n |-> 1, fromstart |-> TRUE])}
@@ -297,8 +312,16 @@ InstC10(h) ==
   \cup {Inst("Mutate", r, [rp |-> a[1], rq |-> 4, seed |-> 5]) : a \in Rates}
   \cup {Inst("AddGaps", r, [pp |-> a[1], pq |-> 4, lp |-> b[1], lq |-> 4, seed |-> 5]) : a \in Rates, b \in Rates}
   \cup {Inst("Recombine", r, [pp |-> a[1], pq |-> 8, lp |-> b[1], lq |-> 4, swap |-> sw, seed |-> 5]) : a \in Rates, b \in Rates, sw \in Bools}
+\* an extraction, then something concatenated / appended onto the extracted object, then further extractions from the source
+InstC04b(h) ==
+  IF Len(hist) = 2 THEN {Inst("SubAlign", 1, [start |-> s, len |-> n]) : s \in 0..L(h[1]), n \in 0..L(h[1])}
+                        \cup {Inst("SelectSites", 1, [sites |-> ss]) : ss \in {<<0, 1>>, <<1, 3>>, <<2>>}}
+                        \cup {Inst("TrimSequences", 1, [n |-> 2, fromstart |-> b]) : b \in Bools}
+  ELSE IF Len(hist) = 3 THEN (IF Len(h) >= 3 THEN {Inst("Concat", 3, [other |-> 2]), Inst("Concat", 3, [other |-> 1])} ELSE {Inst("Concat", 1, [other |-> 2])})
+  ELSE {Inst("SubAlign", 1, [start |-> s, len |-> L(h[1]) - s]) : s \in {0, 2}} \cup {Inst("SelectSites", 1, [sites |-> <<L(h[1]) - 1, 0>>])}
 Instances(h) ==
   CASE Profile = "C06" -> InstC06(h)
+    [] Profile = "C04b" -> InstC04b(h)
     [] Profile = "C05" -> InstC05(h)
     [] Profile = "C12" -> InstC12(h)
     [] Profile = "C13" -> InstC13(h)
